@@ -40,6 +40,7 @@ type fileSpec struct {
 	Pad  int `json:"pad"`            // length of Content
 	Kind int `json:"kind,omitempty"` // 0 = content only, 1 = with a line match, 2 = with a chunk match
 	Score float64 `json:"score,omitempty"`
+	Repo  int     `json:"repo,omitempty"` // byrepo: RepositoryID
 }
 
 type eventSpec struct {
@@ -53,6 +54,7 @@ type eventSpec struct {
 
 type caseSpec struct {
 	Op     string      `json:"op"` // pipe | pipe-grpc | grpc | samp | chunk | coll
+	Multi   bool       `json:"multi,omitempty"`    // byrepo: more than one entry in RepoURLs
 	FlushAt int        `json:"flush_at,omitempty"` // coll: number of results sent before waiting for the timer; -1 = no timer
 	Events []eventSpec `json:"events,omitempty"`
 	Sizes  []int       `json:"sizes,omitempty"` // chunk op: value lengths of BytesValue items
@@ -322,6 +324,9 @@ func emit(w *gen.Writer, cs caseSpec, class string) {
 			Impl: showForwarded(got), Go: verdict, Key: key, Class: class + "-flush@" + bucket(k, len(cs.Events)),
 			Nontrivial: len(cs.Events) >= 2, Detail: detail,
 		})
+	case "byrepo":
+		in, impl, verdict, key := runByRepo(cs)
+		w.Emit(gen.Case{In: in, Impl: impl, Go: verdict, Key: key, Class: class, Nontrivial: len(cs.Events[0].Files) >= 2, Detail: detail})
 	case "chunk":
 		sizes, chunks := runChunker(cs.Sizes)
 		ids := make([]int, len(sizes))
@@ -427,6 +432,10 @@ func main() {
 	}
 	for i, n := 0, f.N(160, 3000); i < n; i++ {
 		cs, class := genCollCase(r, i%3 != 0)
+		emit(w, cs, class)
+	}
+	for i, n := 0, f.N(300, 6000); i < n; i++ {
+		cs, class := genByRepoCase(r)
 		emit(w, cs, class)
 	}
 	singleCounterCases(w)
